@@ -37,9 +37,20 @@ TIERS = {
         "C12": dict(InitFrags='{"F2p", "F4p", "F3r", "F3a", "F4b", "F3x"}', ExtFrags='{"F1p", "F2y"}',
                     InitCells='{"ortho", "tri", "trineg"}', MaxAtoms=12, MaxDepth=2, MaxMap=1, MaxDel=1, Dims="DimsMid"),
     },
-    "thorough": {p: dict(InitFrags=ALLF, ExtFrags=ALLF, InitCells='{"none", "ortho", "tri", "trineg"}',
-                         MaxAtoms=12, MaxDepth=3, MaxMap=2, MaxDel=3, Dims="DimsThorough")
-                 for p in ("C09", "C10", "C11", "C12")},
+    # exhaustive to depth 2 with every fragment as initial structure; depth 3-4, two-atom identity maps and all
+    # extension fragments are reached by simulation (see deep_behaviours) and by the random walks
+    "thorough": {
+        "C09": dict(InitFrags=ALLF, ExtFrags='{"F1p", "F3p", "F3e", "F3q", "F2b", "F4b", "F2y"}', InitCells='{"none", "ortho", "tri", "trineg"}',
+                    MaxAtoms=10, MaxDepth=2, MaxMap=1, MaxDel=2, Dims="DimsMid"),
+        "C10": dict(InitFrags=ALLF, ExtFrags='{"F1p", "F3p", "F3q", "F4b", "F2y"}', InitCells='{"none", "tri"}',
+                    MaxAtoms=10, MaxDepth=2, MaxMap=1, MaxDel=4, Dims="DimsQuick"),
+        "C11": dict(InitFrags=ALLF, ExtFrags=ALLF, InitCells='{"none"}',
+                    MaxAtoms=10, MaxDepth=2, MaxMap=2, MaxDel=1, Dims="DimsQuick"),
+        "C12": dict(InitFrags=ALLF, ExtFrags='{"F1p", "F3a", "F3e", "F2y"}', InitCells='{"ortho", "tri", "trineg"}',
+                    MaxAtoms=16, MaxDepth=2, MaxMap=1, MaxDel=1, Dims="DimsThorough"),
+    },
+    "deep": dict(InitFrags=ALLF, ExtFrags=ALLF, InitCells='{"none", "ortho", "tri", "trineg"}', MaxAtoms=14, MaxDepth=4, MaxMap=2, MaxDel=3,
+                 Dims="DimsThorough"),
 }
 
 
@@ -443,6 +454,24 @@ def design_level(out, prop, tier):
         out.notes.setdefault("negative_controls", []).append("OffsetRule=%s DeleteOrder=%s refuted as expected" % (rule, order))
 
 
+def deep_behaviours(ops, sd, num, sample):
+    """deeper histories by TLC -simulate on the same specification (emission happens on every generated successor)"""
+    res = run_tlc("MC_AtomsAbs", cfg_text(dict(TIERS["deep"]), True, sorted(OP_PROP), False), workers=8, timeout=3000, tag="deep",
+                  simulate="num=%d" % num, depth=4, seed=sd + 3)
+    if res.error:
+        raise MachineryError("deep behaviour generation failed:\n" + res.error)
+    lines = sorted(set(rest for t, rest in res.printed if t == "BEHAVIOUR"))
+    random.Random(sd).shuffle(lines)
+    out = []
+    for rest in lines:
+        b = tla_string_to_json(rest)
+        if b[-1]["op"] in ops and len(b) >= 3:
+            out.append(b)
+            if len(out) >= sample:
+                break
+    return out
+
+
 def gen_behaviours(consts, emit_ops, timeout):
     res = run_tlc("MC_AtomsAbs", cfg_text(consts, True, emit_ops, False), workers=1, timeout=timeout, tag="gen")
     if res.error:
@@ -481,6 +510,9 @@ def run(prop, tier, replay=None):
         out.notes["behaviours"] = len(behs)
         if not behs:
             raise MachineryError("no behaviour generated (vacuous)")
+        deep = deep_behaviours(ops, sd, 6 if tier == "quick" else 60, 600 if tier == "quick" else 15000)
+        out.notes["deep_behaviours"] = len(deep)
+        behs = behs + deep
         rs = renderings(sd, 3)
         cases = []
         for b in behs:
